@@ -201,6 +201,64 @@ def c07_import_mutates_user_layers(part, case, disc) -> bool:
 
 
 # ----------------------------------------------------------------------------------------
+# PIT: exhaustive grid of one-layer-under-test networks (every layer type x options)
+# ----------------------------------------------------------------------------------------
+def grid_cases(tier):
+    """Every combination of {1-D, 2-D} x {conv, depthwise conv, linear} x bias x BatchNorm x
+    fold_bn x handed-over mode x {layer in the middle, layer is the output}: conversion code is
+    per layer type, so each type must meet each option at least once on every run."""
+    for fam in ('1d', '2d'):
+        shape = [4, 8] if fam == '1d' else [4, 5, 5]
+        for kind in ('conv', 'dw', 'linear'):
+            for bias in (False, True):
+                for bn in (False, True):
+                    for fold in (False, True):
+                        for tm in (False, True):
+                            for last in (False, True):
+                                nodes = []
+                                src = 'x'
+                                if kind == 'linear':
+                                    nodes.append({'id': 'n0', 'op': 'flatten', 'in': ['x'],
+                                                  'variant': 'mod'})
+                                    nodes.append({'id': 'n1', 'op': 'linear', 'in': ['n0'],
+                                                  'cout': 5, 'bias': bias, 'bn': bn})
+                                    src = 'n1'
+                                else:
+                                    g = 4 if kind == 'dw' else 1
+                                    if fam == '1d':
+                                        nodes.append({'id': 'n1', 'op': 'conv1d', 'in': ['x'],
+                                                      'k': 3, 'dil': 1, 'stride': 1,
+                                                      'pad': 'causal', 'cout': 4, 'bias': bias,
+                                                      'bn': bn, 'groups': g})
+                                    else:
+                                        nodes.append({'id': 'n1', 'op': 'conv2d', 'in': ['x'],
+                                                      'k': 3, 'p': 1, 'stride': 1, 'cout': 4,
+                                                      'bias': bias, 'bn': bn, 'groups': g})
+                                    src = 'n1'
+                                if not last:
+                                    nodes.append({'id': 'n2', 'op': 'relu', 'in': [src],
+                                                  'variant': 'mod'})
+                                    if kind == 'linear':
+                                        nodes.append({'id': 'n3', 'op': 'linear', 'in': ['n2'],
+                                                      'cout': 2, 'bias': True, 'bn': False})
+                                    elif fam == '1d':
+                                        nodes.append({'id': 'n3', 'op': 'conv1d', 'in': ['n2'],
+                                                      'k': 1, 'dil': 1, 'stride': 1, 'pad': 'none',
+                                                      'cout': 2, 'bias': True, 'bn': False,
+                                                      'groups': 1})
+                                    else:
+                                        nodes.append({'id': 'n3', 'op': 'conv2d', 'in': ['n2'],
+                                                      'k': 1, 'p': 0, 'stride': 1, 'cout': 2,
+                                                      'bias': True, 'bn': False, 'groups': 1})
+                                    src = 'n3'
+                                spec = {'family': fam, 'inputs': [shape], 'out': src,
+                                        'nodes': nodes}
+                                yield {'spec': spec, 'mode': 'auto', 'plain': [], 'fold_bn': fold,
+                                       'train_mode': tm, 'wseed': 3, 'xseed': 4}
+
+
+
+# ----------------------------------------------------------------------------------------
 # SuperNet
 # ----------------------------------------------------------------------------------------
 @st.composite
@@ -281,6 +339,11 @@ CHECK = Check(
     parts=[
         Part('pit', oracle_pit, strategy=pit_cases(),
              budget={'quick': 300, 'thorough': 1500}, shards={'quick': 1, 'thorough': 16}),
+        Part('pit-layer-grid', oracle_pit, enumerate=grid_cases, enum_parallel=True,
+             shards={'quick': 4, 'thorough': 8},
+             exhaustive_note='ALL 192 combinations of {1-D, 2-D} x {conv, depthwise, linear} x '
+                             'bias x BatchNorm x fold_bn x train/eval hand-over x {hidden, output} '
+                             'layer'),
         Part('supernet', oracle_sn, strategy=sn_cases(),
              budget={'quick': 120, 'thorough': 600}, shards={'quick': 1, 'thorough': 16}),
         Part('mps', oracle_mps, strategy=mps_cases(),
